@@ -11,7 +11,8 @@
 EXTENDS Naturals, Sequences, FiniteSets
 
 \* the harness's Go type universe (harness/scn/types.go): T1,T2 implement I1; T2,T3 implement I2
-Concrete == {"T1", "T2", "T3", "T4", "T5", "T6"}
+\* U1 is the unnamed type struct{ID int}: assignable from and to every Tk but identical to none
+Concrete == {"T1", "T2", "T3", "T4", "T5", "T6", "U1"}
 Ifaces   == {"I1", "I2"}
 Impl     == {<<"T1", "I1">>, <<"T2", "I1">>, <<"T2", "I2">>, <<"T3", "I2">>}
 
